@@ -1,5 +1,6 @@
 import KpModel.Key
 import KpModel.Codec.Base64
+import KpModel.Codec.Lemmas
 /-!
 # C20 — credentials derive the KeePass composite key in every documented encoding
 Property theorems only.  Model: `KpModel/Key.lean` (tied to the real key derivation by the correspondence
@@ -150,6 +151,13 @@ theorem stripWs_hexWrite (cs : Nat → Bool) (i : Nat) (b : Bytes) :
 theorem keyfile_v2_every_key (P : KeyPrims) (hP : P.hex = Kp.Codec.hexDecode) (buf : Bytes) (cs : Nat → Bool) (k : Bytes) :
     keyfileKey P buf (.wellFormed (some v2) (some (hexWrite cs 0 k))) = k := by
   simp [keyfileKey, xmlKey, hP, stripWs_hexWrite, hexDecode_hexWrite]
+
+/-- every key has version-1 key files (also files without a version): the standard base64 of the key
+    yields exactly that key (for the executable `base64::STANDARD.decode` model) -/
+theorem keyfile_v1_every_key (P : KeyPrims) (hP : P.b64 = Kp.Codec.b64Decode) (buf : Bytes) (ver : Option Str)
+    (hv : ver ≠ some v2) (k : Bytes) :
+    keyfileKey P buf (.wellFormed ver (some (Kp.Codec.b64Encode k))) = k :=
+  keyfile_v1 P buf ver _ k hv (by rw [hP]; exact Kp.Codec.b64_roundtrip k)
 
 /-! Non-vacuity -/
 example : hexWrite (fun i => i % 2 == 0) 0 [0xAB, 0x0F] = ['A', 'b', '0', 'f'] := by decide
